@@ -488,6 +488,19 @@ def c01_cases(tier, seed):
     cases += cx_esc_cases(rng, max(6, n // 40))
     # counted Up / Down (k / j / - / +) inside texts of several lines under prompts of several widths, then an edit at the place reached
     cases += line_motion_cases(rng, max(12, n // 20))
+    # vi: consecutive kills by character searches in both directions, then a put (backward kills are prepended)
+    for i in range(max(6, n // 50)):
+        t = rng.choice(["xaybzc", "ab cd ef", "a-b-c-d"])
+        tg = [c for c in t if c != " "]
+        seq = [["$", "d", "F", rng.choice(tg), "d", "F", rng.choice(tg), "P"], ["0", "w", "d", "w", "d", "F", rng.choice(tg), "P"],
+               ["$", "d", "T", rng.choice(tg), "d", ";", "p"], ["0", "d", "f", rng.choice(tg), "d", ",", "P"]][i % 4]
+        cases.append(Case(["Esc"] + seq + ["Enter"], mode="vi", initial=(t, ""), timeout=0, prompt="> ", meta={}))
+    # a line that is ONE grapheme of several bytes: transpose / case / delete commands that have nothing to do leave no trace
+    for i in range(max(6, n // 50)):
+        g = rng.choice(["é", "日", "e\u0301", "\U0001F600"])
+        cmd = rng.choice([["C-t"], ["M-t"], ["C-t", "C-t"], ["M-u", "C-t"]])
+        keys = list(g) + cmd + rng.choice([["C-_"], ["C-_", "C-_"], ["C-x", "C-u"]]) + ["Enter"]
+        cases.append(Case(keys, mode="emacs", timeout="none", prompt="> ", meta={}))
     # vi overwrite sessions (R) over characters whose UTF-8 length differs from what is typed, then `.` at another place, undos
     for i in range(max(8, n // 30)):
         t = rng.choice(["éa éa éa", "日x 日x", "ab ab", "a\u0301b a\u0301b"])
@@ -1005,6 +1018,11 @@ def c05_cases(tier, seed):
             keys += cmd() + rng.choice([["l"], ["l"], [], ["h"], ["l", "l"]])
         keys += rng.choice([["u"], ["u", "u"], ["u", "u", "u"], ["C-_"], ["u", "l", "u"]]) + ["Enter"]
         cases.append(Case(keys, mode="vi", initial=(t, ""), timeout=0, prompt="> "))
+    # a line that is ONE grapheme of several bytes, a transpose that has nothing to transpose, then undo: back to the empty line
+    for i in range(max(6, n // 40)):
+        g = rng.choice(["é", "日", "e\u0301", "\U0001F600"])
+        keys = list(g) + rng.choice([["C-t"], ["C-t", "C-t"], ["M-t"]]) + ["C-_"] * rng.randint(1, 2) + ["Enter"]
+        cases.append(Case(keys, mode="emacs", timeout="none", prompt="> "))
     # vi: a change (c + motion, C, s, S) made once by hand, then REPEATED with `.` elsewhere, then undos: the repeated change is one
     # undo unit like the first
     for i in range(max(8, n // 25)):
